@@ -114,6 +114,17 @@ func rulesTable() {
 	rng := vio.NewRNG(vio.Seed())
 	t0 := uint64(1500000000 + rng.Intn(100000000))
 	vio.ParMap(len(lines), workers(), func(i int) {
+		// a seeded change can corrupt shared big.Int state (a package-level constant mutated in place), so that even
+		// formatting a returned value panics: the whole row runs under Safe and such a row counts as a mismatch
+		if p := vio.Safe(func() { rulesRow(table, lines, i, t, t0) }); p != "" {
+			t.mismatch(table, lines[i], "panic-in-row", "", p)
+		}
+	})
+	t.done(table)
+}
+
+func rulesRow(table string, lines []json.RawMessage, i int, t *tally, t0 uint64) {
+	{
 		raw := lines[i]
 		switch table {
 		case "calc":
@@ -260,8 +271,7 @@ func rulesTable() {
 		default:
 			vio.Fatal("unknown table %s", table)
 		}
-	})
-	t.done(table)
+	}
 }
 
 // rules-geth: the spec's difficulty rows against go-ethereum v1.9.15 (main-net config). A difference means the
